@@ -225,3 +225,7 @@ def run(chk, repo):
     chk.ob('C14.d', 'gene id, gene position and location are recomputed for every transcript', repo.loc(r, loop) if loop else r.where, ok,
            'the location is not recomputed per transcript from (genomic position, that transcript\'s gene): transcripts of another overlapping gene get the first gene\'s coordinates',
            key=RED + '::per-transcript-location', fn=r.qual)
+    # ------------------------------------------------------------------ shared: option plumbing by name
+    from rules.shared import optname
+    chk.clauses.append('C14.e (shared R-THREAD) an option value bound to a name that is itself a CLI option carries that very option')
+    optname(chk, repo, 'C14.e', ['cli.parse_vep', 'cli.parse_reditools'], floor=0)
